@@ -24,7 +24,7 @@ def gen_case(rng, binary):
     names = l3common.series_names(w)
     cfg = l3common.rand_cfg(rng, threads=(1, 2, 4))
     kind = rng.choice(["longer", "reordered", "edited", "goal-unknown", "goal-applied", "missing-patch", "unparseable-patch",
-                       "binary-patch", "goal-unknown-all-applied"])
+                       "binary-patch", "goal-unknown-all-applied", "unreadable-applied"])
     expect = "refuse"
     if kind == "longer":
         w["applied"] = b"\n".join(names + [b"extra.patch"] + ([b"more.patch"] if rng.random() < 0.5 else [])) + b"\n"
@@ -39,6 +39,14 @@ def gen_case(rng, binary):
         k = rng.randint(1, len(names))
         ap = names[:k]
         ap[rng.randrange(k)] = b"other.patch"
+        w["applied"] = b"\n".join(ap) + b"\n"
+    elif kind == "unreadable-applied":
+        # an applied-patches file that is there but is not a list of patches (an option the series syntax does not know,
+        # an option without its argument, invalid UTF-8): refused - it must not be taken for "nothing applied"
+        k = rng.randint(0, len(names) - 1)
+        bad = rng.choice([b"zzz.patch -x", names[k] + b" -x", names[k] + b" --bogus", names[k] + b" -p", b"other\xff.patch",
+                          names[k] + b" -R -q"])
+        ap = names[:k] + [bad] + (names[k + 1:k + 2] if rng.random() < 0.3 else [])
         w["applied"] = b"\n".join(ap) + b"\n"
     elif kind == "goal-unknown":
         nm = rng.choice(names)
@@ -100,7 +108,7 @@ def run(ctx):
     l3common.compare(ctx, cases, "inconsistent states", real_results=reals)
     ctx.coverage["statement_checks"] = len(cases)
     l3common.finish(ctx, "workspaces whose patches all apply, made inconsistent in one way: applied-patches longer than / reordered / "
-                         "edited against series; goal unknown / already applied (also with everything applied); a missing, "
+                         "edited against series / not readable as a list of patches (unknown option, option without argument, invalid UTF-8); goal unknown / already applied (also with everything applied); a missing, "
                          "unparseable, unsafe-named or binary patch at a random position; thread counts 1/2/4.")
 
 
